@@ -671,6 +671,9 @@ class CellsImpl(*_cells_impl_base):
             data = {}
         self.data.update(data)
         self.input_keys = set(data.keys())
+        for key in self.input_keys:
+            # every held value has its node (see check_sanity)
+            self.model.tracegraph.add_node((self, key))
 
         BaseNamespaceReferrer.__init__(self, space._namespace)
         self._namespace = self.parent._namespace
